@@ -209,8 +209,11 @@ class Interp:
     def ite(self, c, a, b):
         if isinstance(a, Code) and isinstance(b, Code):
             return Code(zite(c, a.isname, b.isname), zite(c, a.name, b.name), zite(c, a.raw, b.raw))
-        if isinstance(a, SRec) and isinstance(b, SRec) and set(a.fields) == set(b.fields):
-            return SRec({k: self.ite(c, a.fields[k], b.fields[k]) for k in a.fields}, a.kind)
+        if isinstance(a, SRec) and isinstance(b, SRec):
+            # records of different kinds merge on their common fields (the others are not accessible)
+            common = [k for k in a.fields if k in b.fields]
+            return SRec({k: self.ite(c, a.fields[k], b.fields[k]) for k in common},
+                        a.kind if a.kind == b.kind else 'merged')
         if isinstance(a, tuple) and isinstance(b, tuple) and len(a) == len(b):
             return tuple(self.ite(c, x, y) for x, y in zip(a, b))
         if isinstance(a, SObj) and isinstance(b, SObj) and a.cls == b.cls and set(a.attrs) == set(b.attrs):
@@ -393,9 +396,50 @@ class Interp:
         return out
 
     def _comp(self, e, fr, ctor):
+        blk = self._byte_block_comprehension(e, fr)
+        if blk is not None:
+            return blk
         out = []
         self._comp_rec(e.generators, 0, Frame({}, fr), lambda f: out.append(self.ev(e.elt, f)))
         return out
+
+    def _byte_block_comprehension(self, e, fr):
+        """[struct_parse(<one-byte unsigned struct>, stream) for _ in range(n)] with a symbolic n:
+        the n bytes at the stream position (ELFParseError when fewer remain)"""
+        if len(e.generators) != 1 or e.generators[0].ifs:
+            return None
+        g = e.generators[0]
+        if not (isinstance(g.iter, ast.Call) and isinstance(g.iter.func, ast.Name) and g.iter.func.id == 'range'
+                and len(g.iter.args) == 1):
+            return None
+        elt = e.elt
+        if not (isinstance(elt, ast.Call) and isinstance(elt.func, ast.Name) and elt.func.id == 'struct_parse'
+                and len(elt.args) == 2 and not elt.keywords):
+            return None
+        n = self.ev(g.iter.args[0], fr)
+        if not is_sym(n):
+            return None
+        struct = self.ev(elt.args[0], fr)
+        stream = self.ev(elt.args[1], fr)
+        from .calls import LAYOUTS
+        name = getattr(struct, 'name', None)
+        ok = False
+        if name in ('the_Dwarf_uint8', 'Dwarf_uint8', 'Elf_byte'):
+            ok = True
+        elif self.models.is_construct(struct):
+            from . import k2
+            ok = k2.normal_form(struct) == ('int', 1, False, 'le')
+        if not ok or not isinstance(stream, SStream):
+            return None
+        nn = to_int(n)
+        p = to_int(stream.pos)
+        if self.ctx.branch(nn <= 0):
+            return []
+        if not self.ctx.branch(p + nn <= to_int(stream.length)):
+            raise PyExc('ELFParseError', e.lineno, 'short read in byte block')
+        arr = stream.arr
+        stream.pos = z3.simplify(p + nn)
+        return SList(lambda i, arr=arr, p=p: z3.Select(arr, p + to_int(i)), nn, 'bytes')
 
     def _comp_rec(self, gens, i, fr, emit):
         if i == len(gens):
